@@ -29,6 +29,33 @@ class ArgLogConstraint:
         return key in self.feasible_values
 
 
+class NumpyStyleConstraint(ArgLogConstraint):
+    """A constraint written the way users write them with numpy: a reduction over the parameter values.  It works on scalars and -- silently,
+    reducing over everything -- on whole columns, so code that hands it anything but one parameter set gets one answer for all of them."""
+
+    def __init__(self, space, kind, bound):
+        self.kind, self.bound = kind, bound
+        names = list(space.keys())
+        feas = set()
+        import itertools
+        for p in itertools.product(*[range(len(space[n])) for n in names]):
+            if self.test({n: space[n][i] for n, i in zip(names, p)}, names):
+                feas.add(tuple(p))
+        super().__init__(space, feas)
+
+    def test(self, para, names):
+        xs = [para[n] for n in names]
+        if self.kind == "sum":
+            return np.sum(xs) <= self.bound
+        if self.kind == "norm":
+            return np.linalg.norm(xs) >= self.bound
+        return bool(np.any(np.asarray(xs) > self.bound))
+
+    def __call__(self, para):
+        self.log.append(dict(para))
+        return self.test(para, self.names)
+
+
 class ArgLogObjective:
     def __init__(self, space, table, script=()):
         self.space, self.names = space, list(space.keys())
@@ -278,7 +305,10 @@ def run_steps(spec, rnglog=False, per_step_s=20, keep_valid=False):
     obj = ArgLogObjective(space, spec["table"], spec.get("script", ()))
     cons = None
     conlist = None
-    if spec.get("feasible") is not None:
+    if spec.get("np_constraint") is not None:
+        cons = NumpyStyleConstraint(space, *spec["np_constraint"])
+        conlist = [cons]
+    elif spec.get("feasible") is not None:
         cons = ArgLogConstraint(space, spec["feasible"], spec.get("pred"))
         conlist = [cons]
     random.seed(spec.get("ambient", 12345))
